@@ -222,14 +222,7 @@ class Roles:
                     if step == 1 and is_load_of(f, base, 'bucket.rh.clean'):
                         if f not in self.sweep:
                             self.sweep.append(f)
-            geos = set()
-            for c in calls_checked:
-                # the (function, count) pair handed over, wherever it sits in the argument list
-                hs = [fld(f, f.get(o)) for o in c.o if isinstance(o, str) and fld(f, f.get(o)) in ('bucket.hash', 'bucket.rh.hash')]
-                ns = [fld(f, f.get(o)) for o in c.o if isinstance(o, str) and fld(f, f.get(o)) in ('bucket.count', 'bucket.rh.count')]
-                if len(hs) == 1 and len(ns) == 1:
-                    geos.add((hs[0], ns[0]))
-            if ('bucket.hash', 'bucket.count') in geos and ('bucket.rh.hash', 'bucket.rh.count') in geos:
+            if self._both_geometries(f, cnames):
                 self.pa_lookup.append(f)
             # walkers: subscript by an induction variable (phi), not by a hash result / loaded sweep index
             for g, idx in at_subscripts(f):
@@ -238,6 +231,44 @@ class Roles:
                     i = f.get(i.o[0])
                 if i is not None and i.op == 'phi' and f not in self.walkers and f.name != 'cstl_hash_resize' and _touches_chain(f, g):
                     self.walkers.append(f)
+
+        if not self.pa_lookup and self.checked:
+            # the pending half of the lookup may live in a private helper of its own: a function that itself hashes
+            # the key under one geometry and reaches the other through helpers that carry no role
+            stop = cnames | set(self.names('cleaner')) | set(self.names('sweep'))
+            direct = {f.name: self._geometries(f, cnames) for f in fns}
+            for f in fns:
+                if not direct[f.name] or f.name in stop:
+                    continue
+                seen, todo, geos = {f.name}, [f.name], set()
+                while todo:
+                    n = todo.pop()
+                    geos |= direct.get(n, set())
+                    for g in cg.get(n, ()):
+                        if g not in seen and g not in stop and g in direct:
+                            seen.add(g)
+                            todo.append(g)
+                if self._GEOS <= geos:
+                    self.pa_lookup.append(f)
+
+    _GEOS = {('bucket.hash', 'bucket.count'), ('bucket.rh.hash', 'bucket.rh.count')}
+
+    @staticmethod
+    def _geometries(f, cnames):
+        geos = set()
+        for c in f.all_insts():
+            if c.op != 'call' or c.callee not in cnames:
+                continue
+            # the (function, count) pair handed over, wherever it sits in the argument list
+            hs = [fld(f, f.get(o)) for o in c.o if isinstance(o, str) and fld(f, f.get(o)) in ('bucket.hash', 'bucket.rh.hash')]
+            ns = [fld(f, f.get(o)) for o in c.o if isinstance(o, str) and fld(f, f.get(o)) in ('bucket.count', 'bucket.rh.count')]
+            if len(hs) == 1 and len(ns) == 1:
+                geos.add((hs[0], ns[0]))
+        return geos
+
+    @classmethod
+    def _both_geometries(cls, f, cnames):
+        return cls._GEOS <= cls._geometries(f, cnames)
 
     def names(self, role):
         return [f.name for f in getattr(self, role)]
